@@ -38,7 +38,7 @@ def classify(pid, d):
 
 CLASSIFIERS = {}
 
-ALL_EXTRACTORS = ["Basic", "Message", "Conversion", "Session", "Service", "SigGrammar", "Value", "Reader", "Encoding", "GenReaders", "Endpoint", "Stream", "Client", "Queues", "Auth", "Calls"]
+ALL_EXTRACTORS = ["Basic", "Message", "Conversion", "Session", "Service", "SigGrammar", "Value", "Reader", "Encoding", "GenReaders", "Endpoint", "Stream", "Client", "Queues", "Auth", "Calls", "Signals"]
 
 
 def lean_string_list(path, name):
@@ -283,5 +283,28 @@ PROPS = {
             "the error frame a post to a missing target is answered with is not routed back to a caller in the model",
         ],
         "timeout": {"quick": 600, "thorough": 3000},
+    },
+    "C13": {
+        "level": "proof",
+        "extract": ["Signals", "Client"],
+        "rule": "a real server with the generated PingPong stub (signal pong) and 1-3 real clients (bus.Client + "
+                "Proxy.SubscribeID) over in-memory connections whose client-to-server direction the script can hold and "
+                "release; random scripts of subscribe / cancel / emit / other traffic / hold / release / observe (8-26 "
+                "steps), including subscribers and cancels waiting for the subscription lock while a registration is kept "
+                "in flight; after every operation the answer (acked / pending / done) and, at observation points, the exact "
+                "sequence each subscriber received and whether its channel is closed are compared with one machine per "
+                "connection; storms: 1-6 connections x 2-8 subscribers coming and going while 300-2000 numbered events "
+                "are emitted: every subscriber's sequence strictly increasing, its window (acknowledgement to cancel "
+                "request) complete up to a tail of at most 3 events in flight at the cancel request, channel closed after cancel",
+        "assumptions": [
+            "the window ends with the events the connection's reader had dispatched when cancel was requested: an event in "
+            "flight at that moment may be dropped (the fan-out goroutine may see the abort first), and nothing can be "
+            "read from a closed channel anyway",
+            "an emission is atomic with respect to (un)registrations: UpdateSignal snapshots the users under the read lock and "
+            "sends after releasing it, so an emitter racing with an unregistration can put one event on the wire after the "
+            "unregistration's reply (not exercised: emissions come from one goroutine while the object's mailbox is idle)",
+            "user ids (rand.Int) do not collide; queues are within capacity (100 events per subscriber)",
+        ],
+        "timeout": {"quick": 900, "thorough": 3000},
     },
 }
